@@ -804,6 +804,15 @@ fn q_oracle(ck: &mut Ck, spec: &str) {
                     "e".into()
                 }
             },
+            "eC" => {
+                if vk {
+                    let called = m.contains_key(&lk);
+                    let v = m.entry(lk).and_modify(|v| v.clear()).or_insert(uh(f[2]));
+                    format!("v:{}:{}", h(v), if called { "c" } else { "nc" })
+                } else {
+                    "e".into()
+                }
+            },
             "ei" => {
                 if !vk {
                     "e".into()
@@ -1070,6 +1079,8 @@ fn t_oracle(ck: &mut Ck, s: &str) {
         let asr: &str = t.as_ref();
         let frm: &'static str = (*t).into();
         ck.req("C15", t.name() == n && disp == n && asr == n && frm == n && t.package_type() == n, "names disagree");
+        // Display under formatting flags still shows the name (alternate flag; padding may only add fill characters around it)
+        ck.req("C15", format!("{:#}", t) == n && format!("{:>12}", t).trim() == n && format!("{:<12}", t).trim() == n, "Display under formatting flags shows another name");
     }
 }
 #[cfg(feature = "pt")]
@@ -1259,6 +1270,143 @@ pub fn serde_case(a: &[&str]) -> String {
         _ => "SKIP".into(),
     }
 }
+/// A serde Serializer that records which primitive a Serialize impl emits: human-readable or not, and optionally a sink that fails.
+#[cfg(feature = "serde")]
+mod probe {
+    use serde::ser::{self, Impossible};
+    #[derive(Debug, PartialEq)]
+    pub enum Emitted {
+        Str(String),
+        Bytes(Vec<u8>),
+        Other(&'static str),
+    }
+    #[derive(Debug)]
+    pub struct PErr(pub String);
+    impl std::fmt::Display for PErr {
+        fn fmt(&self, f: &mut std::fmt::Formatter<'_>) -> std::fmt::Result {
+            f.write_str(&self.0)
+        }
+    }
+    impl std::error::Error for PErr {}
+    impl ser::Error for PErr {
+        fn custom<T: std::fmt::Display>(m: T) -> Self {
+            PErr(m.to_string())
+        }
+    }
+    pub struct Probe {
+        pub human: bool,
+        pub fail: bool,
+    }
+    macro_rules! prim {
+        ($($f:ident : $t:ty),*) => { $(fn $f(self, _v: $t) -> Result<Emitted, PErr> { Ok(Emitted::Other(stringify!($f))) })* };
+    }
+    impl ser::Serializer for Probe {
+        type Error = PErr;
+        type Ok = Emitted;
+        type SerializeMap = Impossible<Emitted, PErr>;
+        type SerializeSeq = Impossible<Emitted, PErr>;
+        type SerializeStruct = Impossible<Emitted, PErr>;
+        type SerializeStructVariant = Impossible<Emitted, PErr>;
+        type SerializeTuple = Impossible<Emitted, PErr>;
+        type SerializeTupleStruct = Impossible<Emitted, PErr>;
+        type SerializeTupleVariant = Impossible<Emitted, PErr>;
+
+        prim!(serialize_bool: bool, serialize_i8: i8, serialize_i16: i16, serialize_i32: i32, serialize_i64: i64, serialize_u8: u8, serialize_u16: u16,
+              serialize_u32: u32, serialize_u64: u64, serialize_f32: f32, serialize_f64: f64, serialize_char: char);
+
+        fn is_human_readable(&self) -> bool {
+            self.human
+        }
+
+        fn serialize_str(self, v: &str) -> Result<Emitted, PErr> {
+            if self.fail {
+                Err(PErr("sink failed".into()))
+            } else {
+                Ok(Emitted::Str(v.to_string()))
+            }
+        }
+
+        fn serialize_bytes(self, v: &[u8]) -> Result<Emitted, PErr> {
+            if self.fail {
+                Err(PErr("sink failed".into()))
+            } else {
+                Ok(Emitted::Bytes(v.to_vec()))
+            }
+        }
+
+        fn serialize_none(self) -> Result<Emitted, PErr> {
+            Ok(Emitted::Other("none"))
+        }
+
+        fn serialize_some<T: ?Sized + ser::Serialize>(self, _v: &T) -> Result<Emitted, PErr> {
+            Ok(Emitted::Other("some"))
+        }
+
+        fn serialize_unit(self) -> Result<Emitted, PErr> {
+            Ok(Emitted::Other("unit"))
+        }
+
+        fn serialize_unit_struct(self, _n: &'static str) -> Result<Emitted, PErr> {
+            Ok(Emitted::Other("unit_struct"))
+        }
+
+        fn serialize_unit_variant(self, _n: &'static str, _i: u32, _v: &'static str) -> Result<Emitted, PErr> {
+            Ok(Emitted::Other("unit_variant"))
+        }
+
+        fn serialize_newtype_struct<T: ?Sized + ser::Serialize>(self, _n: &'static str, _v: &T) -> Result<Emitted, PErr> {
+            Ok(Emitted::Other("newtype_struct"))
+        }
+
+        fn serialize_newtype_variant<T: ?Sized + ser::Serialize>(self, _n: &'static str, _i: u32, _vn: &'static str, _v: &T) -> Result<Emitted, PErr> {
+            Ok(Emitted::Other("newtype_variant"))
+        }
+
+        fn serialize_seq(self, _l: Option<usize>) -> Result<Self::SerializeSeq, PErr> {
+            Err(PErr("seq".into()))
+        }
+
+        fn serialize_tuple(self, _l: usize) -> Result<Self::SerializeTuple, PErr> {
+            Err(PErr("tuple".into()))
+        }
+
+        fn serialize_tuple_struct(self, _n: &'static str, _l: usize) -> Result<Self::SerializeTupleStruct, PErr> {
+            Err(PErr("tuple_struct".into()))
+        }
+
+        fn serialize_tuple_variant(self, _n: &'static str, _i: u32, _v: &'static str, _l: usize) -> Result<Self::SerializeTupleVariant, PErr> {
+            Err(PErr("tuple_variant".into()))
+        }
+
+        fn serialize_map(self, _l: Option<usize>) -> Result<Self::SerializeMap, PErr> {
+            Err(PErr("map".into()))
+        }
+
+        fn serialize_struct(self, _n: &'static str, _l: usize) -> Result<Self::SerializeStruct, PErr> {
+            Err(PErr("struct".into()))
+        }
+
+        fn serialize_struct_variant(self, _n: &'static str, _i: u32, _v: &'static str, _l: usize) -> Result<Self::SerializeStructVariant, PErr> {
+            Err(PErr("struct_variant".into()))
+        }
+    }
+    /// a writer that accepts `ok` bytes and then fails
+    pub struct Broken(pub usize);
+    impl std::io::Write for Broken {
+        fn write(&mut self, b: &[u8]) -> std::io::Result<usize> {
+            if self.0 == 0 {
+                return Err(std::io::Error::new(std::io::ErrorKind::BrokenPipe, "broken"));
+            }
+            let n = b.len().min(self.0);
+            self.0 -= n;
+            Ok(n)
+        }
+
+        fn flush(&mut self) -> std::io::Result<()> {
+            Ok(())
+        }
+    }
+}
 #[cfg(feature = "serde")]
 fn j_oracle(ck: &mut Ck, a: &[&str]) {
     let j = uh(a[2]);
@@ -1304,6 +1452,21 @@ fn j_oracle(ck: &mut Ck, a: &[&str]) {
                 match (&p, &de) {
                     (Ok(p), Ok(d)) => {
                         ck.req("C16", p == d, "deserialised PURL differs from the parsed one");
+                        // the serialised form is one string value, the canonical string, for every kind of serializer, and does not depend on earlier calls
+                        {
+                            use serde::Serialize;
+                            let canon = d.to_string();
+                            let want = Ok(probe::Emitted::Str(canon.clone()));
+                            let hr = d.serialize(probe::Probe { human: true, fail: false }).map_err(|e| e.0);
+                            let nhr = d.serialize(probe::Probe { human: false, fail: false }).map_err(|e| e.0);
+                            ck.req("C16", hr == want && nhr == want, "a serializer (human-readable or binary) is not handed the canonical string as one string value");
+                            let failed = d.serialize(probe::Probe { human: true, fail: true });
+                            ck.req("C16", failed.is_err(), "a failing serializer's error is swallowed");
+                            let _ = serde_json::to_writer(probe::Broken(0), d);
+                            let _ = serde_json::to_writer(probe::Broken(3), &vec![d.clone(), d.clone()]);
+                            let again = d.serialize(probe::Probe { human: true, fail: false }).map_err(|e| e.0);
+                            ck.req("C16", again == want && serde_json::to_string(d).ok() == serde_json::to_string(&canon).ok(), "serialising after a failed serialisation gives another string");
+                        }
                         let ser = serde_json::to_value(d).unwrap();
                         ck.req("C16", ser.as_str() == Some(&d.to_string()), "serialised form is not the canonical string");
                         let back = serde_json::from_value::<GenericPurl<K::T>>(ser);
